@@ -47,7 +47,11 @@ def configs(ctx):
                {"sched": "ap", "cores": 4, "conc": 64, "iter": 1, "chunk": None},
                {"sched": "ap", "cores": 1, "conc": 64, "iter": None, "chunk": 1},
                {"sched": "spq", "cores": 3, "conc": 64, "iter": 1, "chunk": 1},
-               {"sched": "ll", "cores": 2, "conc": 64, "iter": None, "chunk": None}]
+               {"sched": "ll", "cores": 2, "conc": 64, "iter": None, "chunk": None},
+               {"sched": "gd", "cores": 2, "conc": 64, "iter": 2, "chunk": 3},
+               {"sched": "ip", "cores": 4, "conc": 64, "iter": None, "chunk": None, "noise": 5},
+               {"sched": "rnd", "cores": 3, "conc": 64, "iter": 1, "chunk": 1, "noise": 9},
+               {"sched": "pbq", "cores": 4, "conc": 8, "iter": None, "chunk": 2}]
     else:
         k = 0
         for s in SCHEDS_ALL:
@@ -65,7 +69,7 @@ def programs(ctx):
     for e in ents:
         it, _ = jdfgen.validate(e["prog"])
         e["ntasks"] = len(it.order)
-    ents += jdfgen.random_programs(1000 + ctx.seed, 8 if ctx.quick else 300)
+    ents += jdfgen.random_programs(1000 + ctx.seed, 20 if ctx.quick else 300)
     return ents
 
 
